@@ -257,3 +257,56 @@ Definition inbox_step (s : istate) (o : iop) : istate * iout :=
                    | None => (s, IErr)
                    end
   end.
+
+(* ---------- from a trace of the interleaving semantics to a recorded history (ids = positions 0..n-1; the clock is
+   the position of the event in the trace) ---------- *)
+Section HistOf.
+  Variables (op out : Type).
+  Fixpoint find_inv (t : list (ev op out)) (i : nat) (pos : N) : option (op * N) :=
+    match t with
+    | [] => None
+    | Inv _ _ j o :: r => if Nat.eqb i j then Some (o, pos) else find_inv r i (pos + 1)
+    | _ :: r => find_inv r i (pos + 1)
+    end.
+  Fixpoint find_ret (t : list (ev op out)) (i : nat) (pos : N) : option (out * N) :=
+    match t with
+    | [] => None
+    | Ret _ _ j x :: r => if Nat.eqb i j then Some (x, pos) else find_ret r i (pos + 1)
+    | _ :: r => find_ret r i (pos + 1)
+    end.
+  Fixpoint hist_from (t : list (ev op out)) (i n : nat) : list (hrec op out) :=
+    match n with
+    | O => []
+    | Datatypes.S n' =>
+        match find_inv t i 0 with
+        | None => []
+        | Some (o, pi) =>
+            match find_ret t i 0 with
+            | Some (x, pr) => mkH o (Some x) pi pr
+            | None => mkH o None pi 0
+            end :: hist_from t (Datatypes.S i) n'
+        end
+    end.
+  Definition hist_of (t : list (ev op out)) (n : nat) : list (hrec op out) := hist_from t 0 n.
+End HistOf.
+Arguments hist_of {op out} t n.
+
+(* all orders of the ids 0..n-1 *)
+Fixpoint ins_all (x : nat) (l : list nat) : list (list nat) :=
+  match l with
+  | [] => [[x]]
+  | y :: r => (x :: l) :: map (cons y) (ins_all x r)
+  end.
+Fixpoint orders (n : nat) : list (list nat) :=
+  match n with
+  | O => [[]]
+  | Datatypes.S k => flat_map (ins_all k) (orders k)
+  end.
+
+(* no order of the n (completed) operations of the history is a valid linearization *)
+Definition no_linearization {S op out} (sstep : S -> op -> S * out) (out_eqb : out -> out -> bool) (s0 : S)
+    (h : list (hrec op out)) : bool :=
+  forallb (fun w => negb (valid_linearization sstep out_eqb s0 h w)) (orders (List.length h)).
+Definition some_linearization {S op out} (sstep : S -> op -> S * out) (out_eqb : out -> out -> bool) (s0 : S)
+    (h : list (hrec op out)) : bool :=
+  existsb (fun w => valid_linearization sstep out_eqb s0 h w) (orders (List.length h)).
